@@ -100,6 +100,8 @@ def generate(rng, idx, tier, variant):
         # an alias of an underscore-prefixed (internal) variable that is added after construction and is not exported by default
         spec['internal'] = True
         spec['aliases'].append(['HID', '_hid'])
+    if rng.random() < 0.15:
+        spec['np_names'] = True  # names and aliases arrive as NumPy strings (e.g. taken from an array of column names)
     if rng.random() < 0.3:
         pal, _ = gen_aliases(rng, names)
         spec['parent'] = {'aliases': [[k_, v_] for k_, v_ in pal.items() if k_ != v_], 'instantiate_first': rng.random() < 0.7}
@@ -230,9 +232,12 @@ def execute(schedule, ctx):
     ambiguous = len(set(targets)) < len(targets)
 
     kwA, kwK = {}, {}
+    NS = np.str_ if spec.get('np_names') else (lambda x_: x_)
+    if spec.get('np_names'):
+        ctx.probe('names-as-numpy-strings')
     for nm, it in spec['init_kw'].items():
-        kwA[it['via']] = it['v']
-        kwK[nm] = it['v']
+        kwA[NS(it['via'])] = it['v']
+        kwK[NS(nm)] = it['v']
         if it['via'] != nm:
             ctx.probe('constructor-keyword-through-alias')
 
@@ -326,7 +331,7 @@ def execute(schedule, ctx):
 
     for step, op in enumerate(schedule['ops']):
         ctx.step = step
-        kind, nm, via = op['op'], op['name'], op['via']
+        kind, nm, via = op['op'], NS(op['name']), NS(op['via'])
         path = 'alias' if via != nm else 'canonical'
 
         def both(fa, fk):
@@ -376,8 +381,8 @@ def execute(schedule, ctx):
 
             ra, rk = both(fa, fk)
         elif kind == 'replace_values':
-            ia = {vvia: RC.make_value(vs, n) for _, vvia, vs in op['items']}
-            ik = {cn: RC.make_value(vs, n) for cn, _, vs in op['items']}
+            ia = {NS(vvia): RC.make_value(vs, n) for _, vvia, vs in op['items']}
+            ik = {NS(cn): RC.make_value(vs, n) for cn, _, vs in op['items']}
             if len(ia) != len(ik):
                 continue
             ra, rk = both(lambda: A.replace_values(**ia), lambda: K.replace_values(**ik))
